@@ -4,7 +4,7 @@ import gen
 import spec
 from props.common import load_impl, make_prov, exc_name, truth_table_impl
 
-RULE = ("random DNF containers x (fork by random repeat vectors incl. 0; selection by slice / index list / boolean mask; default provenance "
+RULE = ("random DNF containers x (fork by random repeat vectors incl. 0; selection by slice / index list or array / boolean mask as array or plain list; default provenance "
         "through Importance.fit; Provenance(data=ids) and fit(provenance=ids) for arbitrary integer identifiers (negative, gaps, unsorted); "
         "join of two containers) x ALL assignments; compared with the row-wise definition and with the Lean model Ds.Prov.fork/select/ofGroups/"
         "default/join. Non-trivial = result has >= 2 rows with different truth tables; distinct = distinct (container, operation).")
@@ -51,7 +51,7 @@ def run(ctx):
                 else:
                     mask = [rng.random() < 0.6 for _ in range(n)]
                     idx = [i for i, m in enumerate(mask) if m]
-                    sel = np.array(mask)
+                    sel = np.array(mask) if rng.random() < 0.5 else list(mask)      # Sequence[bool] is part of the signature
                 try:
                     res = table_of(prov[sel], n_units)
                 except Exception as e:  # noqa
